@@ -60,7 +60,7 @@ def main():
     common.use_repo()
     thorough = rep.tier == "thorough"
     rng = random.Random(rep.seed * 1013 + 13)
-    nh = 150 if thorough else 30
+    nh = 800 if thorough else 40
     jobs = fault_jobs(rng, nh, thorough)
     recorded = traces.record_faults(jobs)
     verdicts, js = traces.judge(recorded)
